@@ -232,6 +232,7 @@ def explore(run_seed: int, cfg: dict) -> dict:
     try:
         params, functions = set_up_policy_environment(date)
         functions = {**functions, **userlib.user_rules()}
+        compare.DEFAULT_KW = userlib.order_test_specs()
     except Exception as e:  # noqa: BLE001
         out["setup"] = type(e).__name__
         return out
@@ -353,6 +354,7 @@ def exhaustive(run_seed: int, cfg: dict) -> dict:
     try:
         params, functions = set_up_policy_environment(date)
         functions = {**functions, **userlib.user_rules()}
+        compare.DEFAULT_KW = userlib.order_test_specs()
     except Exception as e:  # noqa: BLE001
         out["setup"] = type(e).__name__
         return out
@@ -516,6 +518,7 @@ def replay_case(case: dict) -> dict:
     warnings.simplefilter("ignore")
     params, functions = set_up_policy_environment(case["date"])
     functions = {**functions, **userlib.user_rules()}
+    compare.DEFAULT_KW = userlib.order_test_specs()
     types = popgen.input_types()
     graph, _ = compare.full_graph(popgen.to_frame({"cols": case["cols"]}, types=types), params, functions)
     if graph is None:
